@@ -162,37 +162,76 @@ func runC20(seed int64, tier string, sc *Script) map[string]any {
 	}
 	inputs = append(inputs, "h:5/a/b:v1", "h:5/a/b", "h:5/a/b:", "x/a/b:v1", "a/b:v1", "v1?x=1", "v1#f", "v1%2F", "../x", "a/../b")
 	enumStrings([]byte("aA.:@/?#%"), 3, func(s string) { inputs = append(inputs, s) })
-	for _, in := range inputs {
-		if strings.ContainsAny(in, " \t\n") {
-			continue
+	// fully-qualified near misses: registries and repositories that differ from the
+	// repository's own by letter case, one character, a port, a trailing dot, a path level
+	flip := func(s string, i int) string {
+		b := []byte(s)
+		switch {
+		case b[i] >= 'a' && b[i] <= 'z':
+			b[i] -= 32
+		case b[i] >= 'A' && b[i] <= 'Z':
+			b[i] += 32
 		}
-		ro := regOK(in)
-		ref, err := repo.ParseReference(in)
-		sc.Op(showRefImpl(ref, err), "ref repo regok=%s base=%s s=%s", ro, base, in)
-		evals++
-		for _, kind := range []string{"manifests", "blobs"} {
-			ans := "err"
-			if err == nil {
-				var u string
-				if kind == "manifests" {
-					u = remote.VerifBuildManifestURL(false, ref)
-				} else {
-					u = remote.VerifBuildBlobURL(false, ref)
-				}
-				pu, perr := url.Parse(u)
-				if perr != nil {
-					ans = "unparsable-url"
-				} else {
-					ans = fmt.Sprintf("path=%s query=%s frag=%s", pu.EscapedPath(), pu.RawQuery, pu.Fragment)
-					if pu.Host != "h:5" {
-						ans += " host=" + pu.Host
-					}
-				}
+		return string(b)
+	}
+	regVars := []string{"h:5", "H:5", "h:50", "h", "h.:5", "hh:5", "h:5.", "h:05"}
+	repoVars := []string{"a/b", "a/B", "A/b", "a/b/c", "a", "b/a", "a//b", "a/bb"}
+	for _, rv := range regVars {
+		for _, pv := range repoVars {
+			for _, suf := range []string{":v1", "@" + digs[0], ":t@" + digs[0], ""} {
+				inputs = append(inputs, rv+"/"+pv+suf)
 			}
-			sc.Op(ans, "ref url kind=%s regok=%s base=%s s=%s", kind, ro, base, in)
-			evals++
 		}
 	}
+	runForms := func(repo *remote.Repository, base string, wantHost string, inputs []string) {
+		for _, in := range inputs {
+			if strings.ContainsAny(in, " \t\n") {
+				continue
+			}
+			ro := regOK(in)
+			ref, err := repo.ParseReference(in)
+			sc.Op(showRefImpl(ref, err), "ref repo regok=%s base=%s s=%s", ro, base, in)
+			evals++
+			for _, kind := range []string{"manifests", "blobs"} {
+				ans := "err"
+				if err == nil {
+					var u string
+					if kind == "manifests" {
+						u = remote.VerifBuildManifestURL(false, ref)
+					} else {
+						u = remote.VerifBuildBlobURL(false, ref)
+					}
+					pu, perr := url.Parse(u)
+					if perr != nil {
+						ans = "unparsable-url"
+					} else {
+						ans = fmt.Sprintf("path=%s query=%s frag=%s", pu.EscapedPath(), pu.RawQuery, pu.Fragment)
+						if pu.Host != wantHost {
+							ans += " host=" + pu.Host
+						}
+					}
+				}
+				sc.Op(ans, "ref url kind=%s regok=%s base=%s s=%s", kind, ro, base, in)
+				evals++
+			}
+		}
+	}
+	runForms(repo, base, "h:5", inputs)
+	// a repository whose registry has letters in both cases and dots
+	repo2, err := remote.NewRepository("Reg.Example.io/team/app")
+	if err != nil {
+		panic(err)
+	}
+	var in2 []string
+	reg2 := "Reg.Example.io"
+	for i := 0; i < len(reg2); i++ {
+		if f := flip(reg2, i); f != reg2 {
+			in2 = append(in2, f+"/team/app:v1", f+"/team/app@"+digs[0])
+		}
+	}
+	in2 = append(in2, reg2+"/team/app:v1", reg2+"/team/app@"+digs[0], strings.ToLower(reg2)+"/team/app:v1",
+		strings.ToUpper(reg2)+"/team/app:v1", reg2+"/team/App:v1", reg2+"/Team/app:v1", reg2+"/team/app/x:v1", "v1", digs[0], "v1@"+digs[0])
+	runForms(repo2, "Reg.Example.io|team/app", "Reg.Example.io", in2)
 	sc.Extra["evaluations"] = evals
 	sc.Extra["exhaustive_short_len"] = shortMax
 	sc.Extra["exhaustive_path_len"] = pathMax
